@@ -7,6 +7,7 @@ import (
 	corev1 "k8s.io/api/core/v1"
 	mrand "math/rand"
 	"os"
+	"runtime/debug"
 	"strings"
 	"testing"
 	"testing/synctest"
@@ -54,6 +55,7 @@ type RunResult struct {
 	TraceHash  string            `json:"traceHash"`
 	LogHash    string            `json:"logHash"`
 	Final      string            `json:"final"`
+	HarnessErr string            `json:"harness_error,omitempty"`
 	Digest     string            `json:"digest"`
 	Digests    map[string]string `json:"-"`
 	NScenarios int               `json:"nScenarios,omitempty"`
@@ -168,7 +170,7 @@ func runInBubble(tape *Tape, seed int64, opts RunOpts) *RunResult {
 	s.Run()
 
 	for _, o := range s.Oracles {
-		o.OnEnd(s)
+		s.guardOracle(o.Name()+".OnEnd", func() { o.OnEnd(s) })
 	}
 	if d := os.Getenv("KSIM_DUMP"); d != "" {
 		for _, k := range s.Store.keys {
@@ -183,7 +185,7 @@ func runInBubble(tape *Tape, seed int64, opts RunOpts) *RunResult {
 	}
 	res := &RunResult{Seed: seed, Scenario: sc, Digests: digests, NScenarios: len(scs), Config: cfg, Steps: s.Steps, SimSeconds: s.Elapsed().Seconds(), EndReason: s.EndReason,
 		Writes: len(s.Store.Log), Calls: s.callIdx, Stats: s.Stats, Probes: s.Probes, Violations: s.Violations, Trace: s.Trace,
-		LogHash: s.EvLog.Sum(), Choices: tape.Rec, LogLines: s.EvLog.Lines, Final: s.finalSummary(sc), Digest: s.finalDigest(sc)}
+		LogHash: s.EvLog.Sum(), Choices: tape.Rec, LogLines: s.EvLog.Lines, Final: s.finalSummary(sc), Digest: s.finalDigest(sc), HarnessErr: s.HarnessErr}
 	th := newHashLog(false)
 	for _, l := range s.Trace {
 		th.add(l)
@@ -210,13 +212,16 @@ func (s *Sim) onCommit(w *Write) {
 	}
 	nv := len(s.Violations)
 	for _, o := range s.Oracles {
-		o.OnWrite(s, w)
+		s.guardOracle(o.Name()+".OnWrite", func() { o.OnWrite(s, w) })
 	}
 	if s.EvLog != nil && s.EvLog.keep {
 		if w.Key.GK == gkRollout || w.Key.GK == gkBR {
 			s.EvLog.Lines = append(s.EvLog.Lines, "  # "+s.abstractState())
 		} else if w.Key.GK == gkService && w.New != nil {
 			s.EvLog.Lines = append(s.EvLog.Lines, "  # svc selector="+dumpJSON(w.New.(*corev1.Service).Spec.Selector))
+		} else if w.Key.GK == gkRS && w.New != nil {
+			rs := w.New.(*appsv1.ReplicaSet)
+			s.EvLog.Lines = append(s.EvLog.Lines, fmt.Sprintf("  # rs replicas=%d status=%s", *rs.Spec.Replicas, statusJSON(rs)))
 		} else if isWorkloadGK(w.Key) && w.New != nil {
 			e, n, _ := s.exposure(w.New)
 			s.EvLog.Lines = append(s.EvLog.Lines, fmt.Sprintf("  # %s exposure=%d/%d gen=%d strategy=%s ctl=%v status=%s", w.Key, e, n, w.New.GetGeneration(), w.New.GetAnnotations()["rollouts.kruise.io/deployment-strategy"], controlledByUID(w.New), statusJSON(w.New)))
@@ -273,6 +278,21 @@ func (s *Sim) abstractState() string {
 		fmt.Fprintf(&sb, "B[%s %s %d:%s bp=%s]", k.Name, br.Status.Phase, br.Status.CanaryStatus.CurrentBatch, br.Status.CanaryStatus.CurrentBatchState, bp)
 	}
 	return sb.String()
+}
+
+// guardOracle: a panic inside an oracle is a harness fault; it must never look like a panic of the code under test.
+func (s *Sim) guardOracle(where string, f func()) {
+	defer func() {
+		if r := recover(); r != nil {
+			if _, isPoison := r.(poisonT); isPoison {
+				panic(r)
+			}
+			if s.HarnessErr == "" {
+				s.HarnessErr = fmt.Sprintf("oracle %s panicked: %v\n%s", where, r, debug.Stack())
+			}
+		}
+	}()
+	f()
 }
 
 func (s *Sim) finalSummary(sc *Scenario) string {
